@@ -1,6 +1,7 @@
 import ScriggoV.Lemmas.LinkDest
 import ScriggoV.Lemmas.LinkDestScan
 import ScriggoV.Lemmas.LinkDestUrl
+import ScriggoV.Lemmas.LinkDestFence
 /-! C29 — rewriting Markdown link destinations changes only link destinations.
 
 What is proved here is the part of the property that is arithmetic on bytes: the splice of
@@ -10,7 +11,7 @@ What is proved here is the part of the property that is arithmetic on bytes: the
 explored with goldmark by the harness (go/props/c29), not proved. Property theorems only;
 lemmas are in `Lemmas/LinkDest.lean`. -/
 namespace ScriggoV.LinkDest
-open ScriggoV.Gen.LinkDestTables ScriggoV.CommonMarkDest
+open ScriggoV.Gen.LinkDestTables ScriggoV.CommonMarkDest ScriggoV.CommonMarkFence ScriggoV.CommonMarkLex
 
 /-! ### applyReplacements -/
 
@@ -179,6 +180,98 @@ example : parseDestination [32, 32, 60, 97, 92, 62, 98, 62, 32, 120] 0 = some (3
 example : parseDestination [97, 40, 98, 92, 41, 41, 99, 32, 100] 0 = some (0, 7, 7) := by decide
 example : bareDest [97, 40, 98, 92, 41, 41, 99] = true := by decide
 example : findLabelEnd [97, 92, 93, 98, 93] 0 = some 4 := by decide
+
+/-! ### fenced and indented code: the scanner's line decisions against CommonMark §4.4, §4.5
+
+The conditions tested by `isFenceStart`, `isFenceClose` and `isIndentedCode` are regenerated from
+linkdestination.go on every check (`Gen/LinkDestFence.lean`), so these theorems are about the
+comparisons the code makes today: a closing fence compared with anything but the length of the
+opening fence, another indentation limit, another fence character make them fail. -/
+
+/-- **isFenceStart**, for every line: it answers `(ch, n)` exactly when the line is a CommonMark
+opening code fence of `n` characters `ch` — up to three spaces of indentation, a maximal run of
+`n ≥ 3` backticks or tildes, and no backtick in the info string of a backtick fence -/
+theorem isFenceStart_iff_openingFence (line : Bytes) (ch : UInt8) (n : Nat) :
+    isFenceStart line = some (ch, n) ↔ OpeningFence ch n line :=
+  ⟨isFenceStart_sound line ch n, isFenceStart_complete line ch n⟩
+
+/-- **isFenceClose**, for every line and every open fence (`ch` a fence character, `n ≥ 1`; what
+`isFenceStart` returns has `n ≥ 3`): it answers true exactly when the line is a CommonMark
+closing fence for it — up to three spaces of indentation, a run of the same character at least
+as long as the opening fence, then only spaces and tabs. In particular a shorter run, another
+character, trailing text or four columns of indentation do not close the block. -/
+theorem isFenceClose_iff_closingFence (line : Bytes) (ch : UInt8) (n : Nat)
+    (hc : isFenceChar ch = true) (hn : 1 ≤ n) :
+    isFenceClose line ch n = true ↔ ClosingFence ch n line :=
+  ⟨isFenceClose_sound line ch n, isFenceClose_complete line ch n hc hn⟩
+
+/-- **the extent of a fenced block**, for every opening fence and all the lines after it: the
+line loop (outside HTML) skips the opening fence, the whole content of the block as CommonMark
+delimits it (`BlockExtent`: the lines before the first closing fence of the same character and
+at least the same length; all the lines when there is none) and the closing fence, and resumes
+after it in the state "not in a fence" -/
+theorem fenced_block_extent (opener : Bytes) (ch : UInt8) (n : Nat) (lines : List Bytes)
+    (ho : OpeningFence ch n opener) (E : BlockExtent ch n lines) :
+    fenceScan none (opener :: lines) =
+      true :: (List.replicate E.content.length true ++
+        (match E.closer with
+         | some (_, rest) => true :: fenceScan none rest
+         | none => [])) := by
+  have hs := isFenceStart_complete opener ch n ho
+  obtain ⟨_, _, _, _, hn3, hc, _, _⟩ := ho
+  have hn : 1 ≤ n := by omega
+  obtain ⟨content, closer, split, hopen, hcloses⟩ := E
+  subst split
+  simp only
+  have hcont : ∀ l ∈ content, isFenceClose l ch n = false := by
+    intro l hl
+    cases h : isFenceClose l ch n with
+    | false => rfl
+    | true => exact absurd (isFenceClose_sound l ch n h) (hopen l hl)
+  have e : ∀ ls, fenceScan none (opener :: ls) = true :: fenceScan (some (ch, n)) ls := by
+    intro ls; simp [fenceScan, hs]
+  rw [e, fenceScan_content ch n content _ hcont]
+  cases closer with
+  | none => simp [fenceScan]
+  | some cr =>
+    obtain ⟨c, rest⟩ := cr
+    have := isFenceClose_complete c ch n hc hn (hcloses c rest rfl)
+    simp [fenceScan_some_cons, this]
+
+/-- **isIndentedCode**, for every line: true exactly when the line has four or more columns of
+indentation (CommonMark §2.2 tab stops, `CommonMarkLex.indentCols`) and is not blank -/
+theorem isIndentedCode_iff (line : Bytes) :
+    isIndentedCode line = true ↔ 4 ≤ indentCols 0 line ∧ line.all isTrail = false := by
+  unfold isIndentedCode indentWidth
+  rw [indentedCode_true, indentWidthFrom_eq_indentCols, isBlank_eq]
+
+-- non-vacuity: "````" opens a fence of four backticks; "```" (three) does not close it, "`````  "
+-- does; the block "````", "```", "[a](b)", "```", "````" is skipped as a whole and "x" is not
+def bt (n : Nat) : Bytes := List.replicate n 96
+def linkLine : Bytes := [91, 97, 93, 40, 98, 41]
+example : OpeningFence 96 4 (bt 4) := ⟨0, [], by decide, by decide, by decide, by decide, by decide, by decide⟩
+example : isFenceStart (32 :: 32 :: bt 4 ++ [109, 100]) = some (96, 4) := by decide
+example : isFenceStart (bt 3 ++ [32, 97, 96]) = none := by decide
+example : isFenceClose (bt 3) 96 4 = false := by decide
+example : isFenceClose (32 :: bt 5 ++ [32, 9]) 96 4 = true := by decide
+example : isFenceClose (bt 4 ++ [120]) 96 4 = false := by decide
+example : isFenceClose (List.replicate 4 126) 96 4 = false := by decide
+example : isFenceClose (32 :: 32 :: 32 :: 32 :: bt 4) 96 4 = false := by decide
+example : fenceScan none [bt 4, bt 3, linkLine, bt 3, bt 4, [120]]
+    = [true, true, true, true, true, false] := by decide
+def sampleExtent : BlockExtent 96 4 [bt 3, linkLine, bt 3, bt 4, [120]] where
+  content := [bt 3, linkLine, bt 3]
+  closer := some (bt 4, [[120]])
+  split := by decide
+  content_open := by
+    intro l hl h
+    have := isFenceClose_complete l 96 4 (by decide) (by decide) h
+    simp only [List.mem_cons, List.not_mem_nil, or_false] at hl
+    rcases hl with e | e | e <;> subst e <;> revert this <;> decide
+  closer_closes := by
+    intro c rest h
+    cases h
+    exact ⟨0, 4, [], by decide, by decide, by decide, by decide⟩
 
 /-! ### which destinations are rewritten, with net/url as a parameter -/
 
